@@ -325,12 +325,11 @@ End Queries.
 (* one level of a collection: sorted union of the parts *)
 Lemma normalize_coll n dflt all_ok tags l r :
   normalize n dflt all_ok tags (SColl l) = Some r ->
-  l <> [] /\ StronglySorted (lt Nat.compare) r /\
+  StronglySorted (lt Nat.compare) r /\
   (forall s, In s l -> exists a, normalize n dflt all_ok tags s = Some a) /\
   (forall x, In x r <-> exists s a, In s l /\ normalize n dflt all_ok tags s = Some a /\ In x a).
 Proof.
-  intros H. destruct l as [|s0 l0]; [discriminate|]. split; [discriminate|].
-  set (l := s0 :: l0) in *. cbn [normalize] in H. fold l in H.
+  intros H. cbn [normalize] in H.
   set (go := fix go (l : list sel) : option (list nat) :=
                match l with
                | [] => Some []
@@ -355,6 +354,9 @@ Proof.
   split; [apply (uniq_strongly_sorted _ Nat.compare nat_cmp_antisym nat_cmp_trans)|]. split; [exact G1|].
   intros x. rewrite (uniq_in _ Nat.compare nat_cmp_eq). apply G2.
 Qed.
+
+Lemma normalize_empty_coll n dflt all_ok tags : normalize n dflt all_ok tags (SColl []) = Some [].
+Proof. reflexivity. Qed.
 
 Lemma normalize_leaves n dflt all_ok tags :
   (forall i, normalize n dflt all_ok tags (SInt i) = Some [i]) /\
@@ -402,3 +404,17 @@ Proof.
     + intros [r [j [Hr [E [Hj Hd]]]]]. exists r. split; [exact Hr|]. cbv beta delta [nm] in E |- *. rewrite (proj2 (Nat.eqb_eq _ _) E).
       apply in_map_iff. exists j. now split.
 Qed.
+
+(* ------------------------------------------------------------------ re-tagging *)
+Theorem with_tags_lookup old new k :
+  tag_lookup (with_tags old new) k = match tag_lookup new k with Some v => Some v | None => tag_lookup old k end.
+Proof.
+  unfold tag_lookup, with_tags. induction new as [|[k' v] new IH]; simpl; [reflexivity|].
+  destruct (Nat.eqb k' k); [reflexivity | exact IH].
+Qed.
+
+(* the last definition of a name in the history is the one in force; names never redefined keep their first definition *)
+Theorem tag_history_last hist new k :
+  tag_lookup (tag_history (hist ++ [new])) k
+  = match tag_lookup new k with Some v => Some v | None => tag_lookup (tag_history hist) k end.
+Proof. unfold tag_history. rewrite fold_left_app. simpl. apply with_tags_lookup. Qed.
